@@ -52,10 +52,10 @@ struct Doc {
 const DB: &str = "c06";
 const COLL: &str = "c";
 const PREFIX: &str = "c06/c/";
-const GUARDED: [&str; 9] = ["add", "update:1", "remove:3", "save_ext", "remove_ext", "flush", "compact_btree", "compact_bm25", "reconcile"];
-const ALL_APIS: [&str; 12] = [
+const GUARDED: [&str; 10] = ["add", "update:1", "remove:3", "save_ext", "remove_ext", "flush", "compact_btree", "compact_bm25", "reconcile", "db_flush"];
+const ALL_APIS: [&str; 14] = [
     "add", "update:2", "remove:2", "flush", "close", "save_ext", "remove_ext", "compact_btree", "compact_bm25", "reconcile",
-    "delete_collection", "close_collection",
+    "delete_collection", "close_collection", "db_flush", "db_close",
 ];
 
 type OpFut = Pin<Box<dyn Future<Output = Result<(), DBError>>>>;
@@ -90,9 +90,11 @@ fn classify(r: &Result<(), DBError>) -> String {
 fn model_kind(api: &str) -> &'static str {
     match api.split(':').next().unwrap() {
         "add" | "update" | "remove" | "save_ext" | "remove_ext" => "mut-s",
-        "flush" => "mut-xp",
+        // AndaDB::flush = Collection::flush on every registered handle, then the database metadata (outside the prefix)
+        "flush" | "db_flush" => "mut-xp",
         "compact_btree" | "compact_bm25" | "reconcile" => "mut-x",
-        "close" | "close_collection" => "close",
+        // AndaDB::close = AndaDB::set_read_only(true), Collection::close on every registered handle, database metadata
+        "close" | "close_collection" | "db_close" => "close",
         "delete_collection" => "drop",
         _ => "?",
     }
@@ -115,6 +117,9 @@ struct Slot {
     /// the future has started at least one backend call
     progressed: bool,
     dropped: bool,
+    /// composite database-level calls (`db_flush`, `db_close`): the call on the collection handle inside them has
+    /// returned; what follows only touches the database's own objects
+    inner_done: bool,
 }
 
 #[derive(Clone, Debug)]
@@ -258,6 +263,14 @@ impl World {
             "compact_bm25" => Box::pin(async move { c.compact_bm25_index(&["txt"]).await }),
             "reconcile" => Box::pin(async move { c.reconcile_storage().await.map(|_| ()) }),
             "delete_collection" => Box::pin(async move { db.delete_collection(COLL).await }),
+            "db_flush" => Box::pin(async move { db.flush().await }),
+            "db_close" => Box::pin(async move { db.close().await }),
+            // creating over a name that still exists (registered, closed-and-unregistered, or being dropped) must be refused
+            // without touching the prefix
+            "create_existing" => Box::pin(async move {
+                let schema = Doc::schema().map_err(|e| DBError::Generic { name: "schema".into(), source: format!("{e:?}").into() })?;
+                db.create_collection(schema, CollectionConfig { name: COLL.into(), description: String::new() }, async |_| Ok(())).await.map(|_| ())
+            }),
             "close_collection" => Box::pin(async move { db.close_collection(COLL).await }),
             // the `&mut self` index methods are only callable inside the open / create callback, before a handle exists
             "open_cb" => Box::pin(async move {
@@ -289,7 +302,7 @@ impl World {
     fn spawn(&mut self, api: &str) -> Result<usize, String> {
         let fut = self.make_future(api)?;
         self.hit(&format!("op:{}", api.split(':').next().unwrap()));
-        self.slots.push(Slot { api: api.into(), model_tid: None, fut: Some(fut), result: None, muts: 0, polls: 0, always_blocked: true, progressed: false, dropped: false });
+        self.slots.push(Slot { api: api.into(), model_tid: None, fut: Some(fut), result: None, muts: 0, polls: 0, always_blocked: true, progressed: false, dropped: false, inner_done: false });
         Ok(self.slots.len() - 1)
     }
 
@@ -343,10 +356,25 @@ impl World {
             let api = self.slots[i].api.clone();
             let modelled = match api.as_str() {
                 "delete_collection" => !self.db.is_read_only() && self.registered,
-                "close_collection" => self.registered,
-                "open_cb" | "open_cb_fail" => false,
+                "close_collection" | "db_flush" | "db_close" => self.registered,
+                "open_cb" | "open_cb_fail" | "create_existing" => false,
                 _ => true,
             };
+            if api == "create_existing" && self.delete_returned_ok {
+                // the name is free again: creating it is legitimate and not what this call is for
+                self.slots[i].fut = None;
+                self.slots[i].result = Some("skipped".into());
+                return Ok((true, false));
+            }
+            if api == "db_close" {
+                // its first action is AndaDB::set_read_only(true); the effect is compared with the closer's first poll
+                if self.registered {
+                    self.model_next_tid += 1;
+                    self.lines.push(("dbro 1".into(), "skip".into()));
+                } else {
+                    self.lines.push(("state".into(), "skip".into()));
+                }
+            }
             if modelled {
                 let t = self.model_next_tid;
                 self.model_next_tid += 1;
@@ -413,7 +441,8 @@ impl World {
         // ---- oracle: a guarded call that only ever saw a refusing handle is rejected and silent
         if fin != "p" && is_guarded(&api) && self.slots[i].always_blocked {
             let s = &self.slots[i];
-            if s.muts > 0 || fin == "ok" {
+            // AndaDB::flush over a handle that is no longer registered flushes nothing and may return Ok
+            if s.muts > 0 || (fin == "ok" && !(api == "db_flush" && s.model_tid.is_none())) {
                 let (m, r) = (s.muts, s.result.clone().unwrap_or_default());
                 self.fail(
                     &format!("refusing-handle-admitted:{}", api.split(':').next().unwrap()),
@@ -430,7 +459,45 @@ impl World {
                 self.fail("delete:leftover", "delete_collection returned Ok but objects remain under the prefix / handle not DELETED", "empty prefix, state deleted", &format!("{} object(s), state {}", left.len(), state_name(self.coll.state())));
             }
         }
-        if let Some(t) = self.slots[i].model_tid {
+        // ---- oracle: a name that still exists cannot be created over
+        if api == "create_existing" && (fin == "ok" || muts > 0) {
+            self.fail(
+                "create-over-existing",
+                "create_collection on a name that still exists (or is being dropped) succeeded or changed objects under its prefix",
+                "Err, 0 mutations",
+                &format!("result {status}, {muts} mutation(s)"),
+            );
+        }
+        let composite = matches!(api.as_str(), "db_flush" | "db_close");
+        if composite && self.slots[i].model_tid.is_some() {
+            let t = self.slots[i].model_tid.unwrap();
+            let a = if acts.is_empty() { "-".to_string() } else { acts.join(",") };
+            if !self.slots[i].inner_done {
+                // the call on the handle has returned as soon as the database-level tail (flush_metadata) starts
+                let now = self.coll.state();
+                let newly_poisoned = state_before != CollectionState::Poisoned && now == CollectionState::Poisoned;
+                // … or, for a close that had nothing to write and whose tail is parked on the metadata lock, when the handle is CLOSED
+                let tail_started = started > started_in || outside || fin != "p" || (api == "db_close" && (now == CollectionState::Closed || newly_poisoned));
+                if tail_started {
+                    self.slots[i].inner_done = true;
+                    let inner_fin = if state_before != CollectionState::Poisoned && self.coll.state() == CollectionState::Poisoned { "err" } else { "ok" };
+                    // the result of the inner call is not observable here: status is compared when the whole future returns
+                    let ans = self.answer("*", muts).await;
+                    self.lines.push((format!("poll {t} g {a} {inner_fin}"), ans));
+                    self.hit(&format!("composite-inner-done:{api}"));
+                } else {
+                    let ans = self.answer(&status, muts).await;
+                    self.lines.push((format!("poll {t} {flag} {a} p"), ans));
+                }
+            }
+            if fin != "p" {
+                // the model thread has finished: its recorded result must be the result of the whole call
+                // a failure of the database-level tail (its own metadata PUT) is not a result of the handle
+                let st = if status == "ok" || status.starts_with("rej") { status.as_str() } else { "*" };
+                let ans = self.answer(st, 0).await;
+                self.lines.push((format!("poll {t} o - {fin}"), ans));
+            }
+        } else if let Some(t) = self.slots[i].model_tid {
             let mut acts = acts.clone();
             // a non-flush mutator body that failed and left the handle poisoned called `self.poison` itself
             // (unknown-outcome storage failure in add / update / remove): the model cannot foresee the backend's answer
@@ -487,7 +554,7 @@ impl World {
         }
         // ---- oracle: cancel = crash: a partial effect implies the handle is no longer ACTIVE
         let s = &self.slots[i];
-        if s.muts > 0 && self.coll.state() == CollectionState::Active {
+        if s.muts > 0 && self.coll.state() == CollectionState::Active && !s.inner_done {
             let (api, m) = (s.api.clone(), s.muts);
             self.fail(
                 &format!("cancel-left-active:{}", api.split(':').next().unwrap()),
@@ -544,6 +611,8 @@ impl World {
                 continue;
             }
         }
+        let i = self.spawn("create_existing")?;
+        self.run(i).await?;
         Ok(())
     }
 
@@ -788,7 +857,13 @@ fn check_case(rt: &tokio::runtime::Runtime, name: &str, ops: &[String], model: &
             if record {
                 rep.model_compared += 1;
             }
-            if ans != "skip" && &got != ans {
+            if record {
+                let kind = req.split(' ').next().unwrap_or("");
+                let what = if kind == "spawn" { req.as_str() } else { kind };
+                rep.hit(&format!("model-answer:{what}:{}", got.split(' ').next().unwrap_or("")));
+            }
+            let same = if let Some(rest) = ans.strip_prefix("* ") { got.split_once(' ').map(|x| x.1) == Some(rest) } else { &got == ans };
+            if ans != "skip" && !same {
                 nd += 1;
                 if record {
                     let mut c = ops.to_vec();
@@ -991,6 +1066,27 @@ fn main() {
                 ops.push("call add".into());
                 ops.push("reopen".into());
                 cases.push((format!("transition:{tr}"), ops));
+            }
+        }
+        // (E) queued at the transition: an exclusive holder is in flight, every entry point is parked on the gate behind it,
+        //     then the transition begins, then the holder finishes (or is dropped = poison) and the queued call runs
+        for setup in setups {
+            for q in GUARDED {
+                for tr in ["setro 1", "dbro 1", "op close|poll 2", "op close_collection|poll 2", "op delete_collection|poll 2|poll 2", "op db_close|poll 2", "POISON"] {
+                    // reconcile_storage always reads the prefix: after one poll it is parked at the backend holding the exclusive gate
+                    let mut ops = vec![setup.to_string(), "op reconcile".into(), "poll 0".into(), format!("op {q}"), "poll 1".into()];
+                    if tr == "POISON" {
+                        ops.push("drop 0".into());
+                    } else {
+                        ops.extend(tr.split('|').map(|s| s.to_string()));
+                        ops.push("run 0".into());
+                    }
+                    ops.push("run 1".into());
+                    ops.push("settle".into());
+                    ops.push("sweep".into());
+                    ops.push("reopen".into());
+                    cases.push((format!("queued:{q}:{tr}"), ops));
+                }
             }
         }
         // (D) the `&mut self` index methods inside the open callback, dropped at every poll count
